@@ -9,11 +9,13 @@ import (
 	"encoding/json"
 	"errors"
 	"io"
+	"math/rand"
 	"os"
 	"path/filepath"
 	"strings"
 	"sync"
 	"testing"
+	"time"
 
 	"github.com/opencontainers/go-digest"
 	ocispec "github.com/opencontainers/image-spec/specs-go/v1"
@@ -21,6 +23,7 @@ import (
 	"oras.land/oras-go/v2/content/file"
 	"oras.land/oras-go/v2/content/memory"
 	"oras.land/oras-go/v2/content/oci"
+	"oras.land/oras-go/v2/verifhook"
 	"verif/harness/vh"
 )
 
@@ -43,11 +46,15 @@ type scripted struct {
 	c   Case
 	pos int
 	zp  bool
+	pt  func(string) // scheduling point before every read (controlled concurrent rounds)
 }
 
 func newScripted(c Case) *scripted { return &scripted{c: c, zp: c.Zeros} }
 
 func (s *scripted) Read(p []byte) (int, error) {
+	if s.pt != nil {
+		s.pt("read")
+	}
 	if len(p) == 0 {
 		return 0, nil
 	}
@@ -154,6 +161,83 @@ func targets() []pushTarget {
 	}
 }
 
+// probe reads what a store shows for a descriptor.
+func probe(ctx context.Context, st content.Storage, d ocispec.Descriptor) (exists, fetchok bool, got []byte) {
+	exists, _ = st.Exists(ctx, d)
+	if rc, ferr := st.Fetch(ctx, d); ferr == nil {
+		got, ferr = io.ReadAll(rc)
+		rc.Close()
+		fetchok = ferr == nil
+	}
+	return
+}
+
+// controlled runs one round of concurrent good and bad pushers of one digest (and one name) into a store, released one
+// scheduling point at a time: the points are the reads of the scripted readers and the library's own verif points.
+func controlled(t *testing.T, ctx context.Context, base string, tg pushTarget, seed int64, emit func(Case, map[string]any)) {
+	dir, _ := os.MkdirTemp(base, "cc")
+	defer os.RemoveAll(dir)
+	st, closeFn, err := tg.mk(dir)
+	if err != nil {
+		t.Fatal(err)
+	}
+	defer closeFn()
+	rng := rand.New(rand.NewSource(seed))
+	good := Case{Data: []int{0, 1, 1}, Cut: 3, Endk: "eof", Chunk: 1 + rng.Intn(3), Zeros: rng.Intn(2) == 0, Dg: []int{0, 1, 1}, Size: 3}
+	bads := []Case{
+		{Data: []int{0, 1, 0}, Cut: 3, Endk: "eof", Chunk: 1, Dg: []int{0, 1, 1}, Size: 3},
+		{Data: []int{0, 1, 1}, Cut: 2, Endk: "err", Chunk: 1, Dg: []int{0, 1, 1}, Size: 3},
+		{Data: []int{0, 1}, Cut: 2, Endk: "eof", Chunk: 1, Dg: []int{0, 1, 1}, Size: 3},
+		{Data: []int{1, 1, 1, 0}, Cut: 4, Endk: "eof", Chunk: 2, Dg: []int{0, 1, 1}, Size: 3},
+	}
+	ps := &vh.PSched{Quiet: 400 * time.Microsecond}
+	verifhook.Set(ps.Point)
+	defer verifhook.Set(nil)
+	np := 2 + rng.Intn(3)
+	results := make([]bool, np)
+	isGood := make([]bool, np)
+	for g := 0; g < np; g++ {
+		g := g
+		c := bads[rng.Intn(len(bads))]
+		if g == 0 || rng.Intn(3) == 0 {
+			c, isGood[g] = good, true
+		}
+		ps.Go(g, func() {
+			r := newScripted(c)
+			r.pt = ps.Point
+			results[g] = st.Push(ctx, descOf(c, tg.ttl), r) == nil
+		})
+	}
+	if ps.Run(func(step int, pend []*vh.POp) int { return rng.Intn(len(pend)) }) {
+		ps.ReleaseAll()
+		emit(good, map[string]any{"ok": true, "exists": false, "fetchok": false, "bytes": []int{}, "existsp": false, "fetchpok": false,
+			"bytesp": []int{}, "newblobs": 0, "badblobfiles": 0, "concurrent": true, "hang": true})
+		return
+	}
+	verifhook.Set(nil)
+	exists, fetchok, got := probe(ctx, st, descOf(good, tg.ttl))
+	existsp, fetchpok, gotp := probe(ctx, st, descOf(good, ""))
+	bad := 0
+	if tg.root != nil {
+		_, bad = blobFiles(tg.root(dir))
+	}
+	badOK, goodOK := false, false
+	for g := range results {
+		if isGood[g] {
+			goodOK = goodOK || results[g]
+		} else {
+			badOK = badOK || results[g]
+		}
+	}
+	// reported as a push of the good case; a bad pusher that was told "ok" is reported as a push of a bad case
+	emit(good, map[string]any{"ok": goodOK, "exists": exists, "fetchok": fetchok, "bytes": abstract(got), "existsp": existsp,
+		"fetchpok": fetchpok, "bytesp": abstract(gotp), "newblobs": 1, "badblobfiles": bad, "concurrent": true, "schedule": ps.Choices})
+	if badOK {
+		emit(bads[0], map[string]any{"ok": true, "exists": exists, "fetchok": fetchok, "bytes": abstract(got), "existsp": existsp,
+			"fetchpok": fetchpok, "bytesp": abstract(gotp), "newblobs": 1, "badblobfiles": bad, "concurrent": true})
+	}
+}
+
 func TestDrive(t *testing.T) {
 	out := os.Getenv("VH_OUT")
 	if out == "" {
@@ -243,7 +327,10 @@ func TestDrive(t *testing.T) {
 			if tg.root != nil {
 				nb1, bad = blobFiles(tg.root(dir))
 			}
+			// the same content asked for by its plain descriptor (no title), as a manifest's layer entry would
+			existsp, fetchpok, gotp := probe(ctx, st, descOf(c, ""))
 			emit(ci, c, tg.name, map[string]any{"ok": perr == nil, "exists": exists, "fetchok": fetchok, "bytes": abstract(got),
+				"existsp": existsp, "fetchpok": fetchpok, "bytesp": abstract(gotp),
 				"newblobs": nb1 - nb0, "badblobfiles": bad, "limit": map[string]int{"limited": 2, "fileunnamed": 1 << 22}[tg.name]})
 			closeFn()
 			os.RemoveAll(dir)
@@ -295,14 +382,28 @@ func TestDrive(t *testing.T) {
 			badOK = badOK || results[g]
 		}
 		// reported as a push of the good case whose result is "a bad pusher succeeded"
-		emit(-1, good, "oci", map[string]any{"ok": true, "exists": exists, "fetchok": fetchok, "bytes": abstract(got), "newblobs": 1, "badblobfiles": bad, "concurrent": true, "badpusherok": badOK})
+		emit(-1, good, "oci", map[string]any{"ok": true, "exists": exists, "fetchok": fetchok, "bytes": abstract(got), "existsp": exists, "fetchpok": fetchok, "bytesp": abstract(got), "newblobs": 1, "badblobfiles": bad, "concurrent": true, "badpusherok": badOK})
 		if badOK {
 			c := bads[0]
-			emit(-1, c, "oci", map[string]any{"ok": true, "exists": exists, "fetchok": fetchok, "bytes": abstract(got), "newblobs": 1, "badblobfiles": bad, "concurrent": true})
+			emit(-1, c, "oci", map[string]any{"ok": true, "exists": exists, "fetchok": fetchok, "bytes": abstract(got), "existsp": exists, "fetchpok": fetchok, "bytesp": abstract(got), "newblobs": 1, "badblobfiles": bad, "concurrent": true})
 		}
 		os.RemoveAll(dir)
 	}
+	ctl := 0
+	for _, tg := range targets() {
+		if !want(tg.name) || tg.name == "limited" || tg.name == "filefallbackoci" {
+			continue
+		}
+		for r := 0; r < vh.EnvInt("VH_CTL", 150); r++ {
+			ctl++
+			tg := tg
+			controlled(t, ctx, base, tg, int64(vh.EnvInt("VH_SEED", 1))*100003+int64(r), func(c Case, m map[string]any) {
+				m["limit"] = 0
+				emit(-2, c, tg.name, m)
+			})
+		}
+	}
 	rot.Close()
-	sum, _ := json.Marshal(map[string]any{"records": n, "cases": len(cases), "ok": okCount, "per_consumer": perConsumer, "files": rot.Files, "concurrent_rounds": conc})
+	sum, _ := json.Marshal(map[string]any{"records": n, "cases": len(cases), "ok": okCount, "controlled_rounds": ctl, "per_consumer": perConsumer, "files": rot.Files, "concurrent_rounds": conc})
 	os.WriteFile(out+"/summary.json", sum, 0o644)
 }
